@@ -111,10 +111,66 @@ func wireTokSpec(r *Rand, nCast int, label string, focus string) TokSpec {
 	return ts
 }
 
+// widen gives a token collections that cross encoding and capacity thresholds: a policy of 24 /
+// 130 / 256 / 300 statements, a literal list of hundreds of small maps, hundreds of metadata
+// entries or arguments.
+func widen(r *Rand, ts *TokSpec) {
+	n := Pick(r, []int{24, 130, 256, 300})
+	var recs []Val
+	for i := 0; i < n; i++ {
+		recs = append(recs, vMap(KV{"i", vInt(int64(i))}))
+	}
+	if ts.Kind == "dlg" {
+		switch r.Intn(3) {
+		case 0:
+			for i := 0; i < n; i++ {
+				ts.Dlg.Pol = append(ts.Dlg.Pol, Stmt{Op: Pick(r, []string{"==", "<", ">="}), Sel: fmt.Sprintf(".k%d", i%7), Val: ptr(vInt(int64(i)))})
+			}
+		case 1:
+			ts.Dlg.Pol = append(ts.Dlg.Pol, Stmt{Op: "==", Sel: ".recs", Val: ptr(Val{K: "list", L: recs})})
+		default:
+			for i := 0; i < n; i++ {
+				ts.Dlg.Meta = append(ts.Dlg.Meta, MetaSpec{Key: fmt.Sprintf("m%03d", i), V: ptr(vInt(int64(i)))})
+			}
+		}
+		return
+	}
+	switch r.Intn(3) {
+	case 0:
+		ts.Inv.Args = append(ts.Inv.Args, KV{"recs", Val{K: "list", L: recs}})
+	case 1:
+		for i := 0; i < n; i++ {
+			ts.Inv.Args = append(ts.Inv.Args, KV{fmt.Sprintf("a%03d", i), vStr("v")})
+		}
+	default:
+		for i := 0; i < n; i++ {
+			ts.Inv.Meta = append(ts.Inv.Meta, MetaSpec{Key: fmt.Sprintf("m%03d", i), V: ptr(vMap(KV{"i", vInt(int64(i))}))})
+		}
+	}
+}
+
 func genWire(r *Rand, g GenCfg) Plan {
 	p := &WirePlan{}
 	p.Cast = genCast(r, g.Tier, 2, 4)
 	p.Tokens = []TokSpec{wireTokSpec(r, len(p.Cast), "t0", g.Focus), wireTokSpec(r, len(p.Cast), "t1", g.Focus)}
+	// one run in sixteen carries a token whose signed part is larger than 64 KiB, one in sixteen a
+	// token with wide collections (by run index, so that every batch has them)
+	huge := g.Index%16 == 7
+	if huge {
+		blob := MetaSpec{Key: "blob", V: ptr(vBytes(r.Bytes(Pick(r, []int{66000, 70000, 140000}))))}
+		p.Cast = []Principal{{"ed25519", r.Intn(8)}, {"ed25519", r.Intn(8)}, {"secp256k1", r.Intn(4)}}
+		t := &p.Tokens[0]
+		if t.Kind == "dlg" {
+			t.Dlg.Meta = append(t.Dlg.Meta, blob)
+		} else if r.Chance(0.5) {
+			t.Inv.Meta = append(t.Inv.Meta, blob)
+		} else {
+			t.Inv.Args = append(t.Inv.Args, KV{"blob", *blob.V})
+		}
+	}
+	if g.Index%16 == 11 {
+		widen(r, &p.Tokens[r.Intn(2)])
+	}
 	add := func(s XStep) { p.Steps = append(p.Steps, s) }
 	add(XStep{Op: "roundtrip", Tok: 0})
 	add(XStep{Op: "roundtrip", Tok: 1})
@@ -132,6 +188,24 @@ func genWire(r *Rand, g GenCfg) Plan {
 		if all {
 			add(XStep{Op: "flip_all", Tok: tok, Lo: r.Intn(2000), Hi: -1})
 			p.Steps[len(p.Steps)-1].Hi = p.Steps[len(p.Steps)-1].Lo + 200
+		} else if huge {
+			// (a complete enumeration of a 100 KB token would be millions of large decodes: an odd
+			// stride over everything, dense windows around 64 KiB and at the end, both ends complete)
+			tok = 0
+			for _, op := range []string{"flip_all", "trunc_all", "del_all"} {
+				unit := 1
+				if op == "flip_all" {
+					unit = 8
+				}
+				wide := 149 // bytes
+				if op == "flip_all" {
+					wide = 541 // bits
+				}
+				add(XStep{Op: op, Tok: 0, Hi: -1, Stride: wide})
+				add(XStep{Op: op, Tok: 0, Lo: (65536 - 40) * unit, Hi: (65536 + 400) * unit, Stride: 7})
+				add(XStep{Op: op, Tok: 0, Lo: 0, Hi: 300 * unit, Stride: 3})
+				add(XStep{Op: op, Tok: 0, Lo: -600 * unit, Hi: -1, Stride: 1})
+			}
 		} else {
 			add(XStep{Op: "flip_all", Tok: tok, Hi: -1})
 			add(XStep{Op: "trunc_all", Tok: tok, Hi: -1})
@@ -144,7 +218,7 @@ func genWire(r *Rand, g GenCfg) Plan {
 		for i := 0; i < 24; i++ {
 			add(XStep{Op: "mutate", Tok: r.Intn(2), Codec: Pick(r, []string{"cbor", "cbor", "json"}), Kind: Pick(r, []string{"subst", "insert", "append"}), At: r.Intn(4096), Val: r.Intn(256)})
 		}
-		for _, k := range []string{"empty", "trunc", "trunc", "other_key", "iss_swapped", "foreign_header", "foreign_header", "unknown_header", "no_header", "two_payloads", "splice"} {
+		for _, k := range []string{"empty", "trunc", "trunc", "other_key", "iss_swapped", "foreign_header", "foreign_header", "unknown_header", "no_header", "two_payloads", "splice", "hostile_header", "hostile_header"} {
 			add(XStep{Op: "sig", Tok: r.Intn(2), Kind: k, At: r.Intn(600), Val: r.Intn(256)})
 		}
 		for t := 0; t < 2; t++ {
@@ -205,6 +279,9 @@ func genWire(r *Rand, g GenCfg) Plan {
 		for i := 0; i < 3*nn; i++ {
 			add(XStep{Op: "hostile", Kind: "glob", Val: r.Intn(64), At: r.Intn(64)})
 		}
+		for i := 0; i < 2*nn; i++ {
+			add(XStep{Op: "sig", Tok: r.Intn(2), Kind: "hostile_header", At: r.Intn(64), Val: r.Intn(12)})
+		}
 		nt := 60
 		if all {
 			nt = 6
@@ -215,7 +292,13 @@ func genWire(r *Rand, g GenCfg) Plan {
 		}
 		if !all {
 			tok := r.Intn(2)
-			add(XStep{Op: "trunc_all", Tok: tok, Hi: -1})
+			if huge && tok == 0 {
+				add(XStep{Op: "trunc_all", Tok: tok, Hi: -1, Stride: 149})
+				add(XStep{Op: "trunc_all", Tok: tok, Hi: 400})
+				add(XStep{Op: "trunc_all", Tok: tok, Lo: -400, Hi: -1})
+			} else {
+				add(XStep{Op: "trunc_all", Tok: tok, Hi: -1})
+			}
 			lo := r.Intn(1500)
 			add(XStep{Op: "flip_all", Tok: tok, Lo: lo, Hi: lo + 600})
 			for i := 0; i < 40; i++ {
@@ -256,7 +339,7 @@ func genWire(r *Rand, g GenCfg) Plan {
 			for v := 0; v < 3; v++ {
 				add(XStep{Op: "byz", Tok: t, Field: "nonce", How: "nonce_len", Val: v})
 			}
-			for v := 0; v < 6; v++ {
+			for v := 0; v < 11; v++ {
 				add(XStep{Op: "byz", Tok: t, Field: "cmd", How: "bad_cmd", Val: v})
 			}
 			for v := 0; v < 12; v++ {
